@@ -39,9 +39,29 @@ ACIDBASE = ('nh4', 'hoac', 'co3a', 'co3b')
 VARIANTS = ('default', 'log', 'lin', 'square', 'loglin', 'loglin_rref', 'condchain')
 LOG_SMALL = math.exp(-36)          # NumSysLog.small: "zero" in the logarithmic formulation
 
-Q_RTOL = 1e-6
-TOT_RTOL = 1e-8
-TOT_ATOL_REL = 1e-10              # absolute part, relative to the largest initial concentration (solver tol is 1e-8 on the vector)
+# Oracle tolerances are multiples of the tolerance `tol` the root finder was actually run with (pyneqsys default 1e-8 unless a chain
+# passes its own).  Measured on /repo over 5 thorough seeds (17 780 success & sane runs outside the lm finding):
+#   totals:  |delta_k| / (tol * sum_j |a_kj| * max(x_j, c0_j))                    max 6.6   (p99.9 2.2)    -> factor 100  (x10 margin, rounded up)
+#   Q = K :  |ln Q - ln K| / (tol * sum_j |nu_j| * (1 + |ln x_j|))                max 0.021 (p99.9 0.019)  -> factor 0.25
+# (the second scale is the conditioning of ln Q w.r.t. a relative error tol*(1+|ln x_j|) of each concentration: the default formulation
+#  iterates on ln c).  Salts use the Q scale for ln(ion product) - ln Ksp.
+TOT_FACTOR = 100.0
+Q_FACTOR = 0.25
+ROUND_ATOL = 1e-13                # float rounding floor, relative to the largest concentration
+
+
+def _solver_tol(variant):
+    """the tolerance the solver is run with for this variant: an explicit `tol` of the chain, else pyneqsys' default"""
+    kw = _variant_kwargs(variant) if variant in VARIANTS else {}
+    if 'tol' in kw:
+        return float(kw['tol'])
+    try:
+        import inspect
+        from pyneqsys.core import NeqSys
+        return float(inspect.signature(NeqSys._solve_scipy).parameters['tol'].default)
+    except Exception:
+        return 1e-8
+
 NEG_ATOL = 0.0                     # _result_is_sane admits no negative entry at all
 
 
@@ -142,7 +162,9 @@ class C08(Property):
         'give success, sane and genuine results on all but max(2, floor(0.05 n)) of n >= 40 well-conditioned homogeneous runs, per pool; '
         'n and the number of failures are in the solve:rate:* buckets '
         '(property asks 19/20; the margin avoids flakiness, the measured rate is in the failure text / notes)',
-        'oracle tolerances: totals |delta| <= 1e-8*sum|a_kj c0_j| + 1e-10*max(c0), Q=K rtol 1e-6, solid counted as absent below max(4*exp(-36), 1e-12*scale)',
+        'oracle tolerances are multiples of the tolerance tol the solver was run with (pyneqsys default 1e-8): totals |delta_k| <= 100*tol*sum_j|a_kj|*max(x_j,c0_j), '
+        '|ln Q - ln K| <= 0.25*tol*sum_j|nu_j|(1+|ln x_j|) (same scale for ln(ion product) - ln Ksp); factors = 10 x the maxima measured over 5 thorough seeds; '
+        'solid counted as absent below max(4*exp(-36), 1e-12*scale)',
     )
     clauses_without_theorem = (
         'success AND sane => genuine, as a statement about real runs: that a run reporting sol["success"] has driven the residual of its '
@@ -161,6 +183,9 @@ class C08(Property):
         '(NumSysLin; for NumSysLog/Square an absent solid is represented by small = exp(-36) resp. 1e-35) and single-salt systems',
         'pre/post-processors, internal_x0_cb and float rounding of the NumSys formulations; stage i of a chain uses formulation i '
         '(structural "stages" oracle, no theorem); rref_equil / rref_preserv variants',
+        'histories on one EqSystem object (solve, change rxn.param in place, solve again: every result judged against the CURRENT constants) '
+        'and the varied entry points solve(init, varied) / roots on real runs: oracle only (kinds history, grid); the grid construction itself '
+        'has a theorem (varied_grid_point_spec) and exact correspondence (op varied); fw callbacks re-read the constant at call time: correspondence (k_first)',
         'the default tolerances rtol=1e-9 / 1e-14 are model constants tied to the source by correspondence buckets (sane:default-*, fw:default-*), not extracted',
     )
     anchors = (
@@ -180,6 +205,8 @@ class C08(Property):
         ('chempy/equilibria.py', 'EqSystem.solve'),
         ('chempy/_eqsys.py', 'EqCalcResult'),
         ('chempy/reactionsystem.py', 'ReactionSystem.upper_conc_bounds'),
+        ('chempy/reactionsystem.py', 'ReactionSystem.per_substance_varied'),
+        ('chempy/equilibria.py', 'EqSystem.roots'),
         ('chempy/chemistry.py', 'Reaction.precipitate_stoich'),
         ('chempy/chemistry.py', 'Reaction._xprecipitate_stoich'),
         ('chempy/chemistry.py', 'Reaction.has_precipitates'),
@@ -295,7 +322,7 @@ class C08(Property):
         n_solver = max(60, n // 5)
         n_craft = n - n_solver
         ops = ['ucb', 'sane', 'sane', 'sane', 'precip_stoich', 'dissolved', 'dissolved', 'fw', 'fw', 'bw', 'ptidx', 'nonprecip',
-               'quotient', 'rc_interval', 'rc_interval', 'bracket', 'residual', 'net_stoich']
+               'quotient', 'rc_interval', 'rc_interval', 'bracket', 'residual', 'net_stoich', 'varied', 'varied']
         for i in range(n_craft):
             cases.append(self._gen_crafted(rng, ops[i % len(ops)]))
         cases.extend(self._gen_solver(rng, n_solver))
@@ -420,7 +447,23 @@ class C08(Property):
                 else:                           # margin 0.3e-14
                     k = q * (1 + F(3, 10 ** 15)) if up else q / (1 + F(3, 10 ** 15))
             c['k'] = rj(k)
+            if rng.random() < 0.3:       # history: the callback is created while the reaction has another constant, which is then changed in place
+                c['k_first'] = rj(k * F(rng.choice([1, 3, 1000]), rng.choice([1, 7, 1000])))
             return c
+        if op == 'varied':
+            ns = rng.randint(1, 5)
+            base = [self._dy(rng) for _ in range(ns)]
+            nv = rng.randint(0, min(3, ns))
+            ks = rng.sample(range(ns), nv)            # the user's dict order: arbitrary w.r.t. the substance order
+            equal = rng.random() < 0.6                  # equal numbers of levels: a transposed grid has the same shape
+            m = rng.randint(1, 3)
+            varied = [[k, [rj(self._dy(rng, 0, 400, 16)) for _ in range(m if equal else rng.randint(0, 3))]] for k in ks]
+            u = rng.random()
+            if u < 0.06:
+                varied.insert(rng.randint(0, len(varied)), [ns + rng.randint(0, 2), [rj(self._dy(rng))]])
+            elif u < 0.1:
+                base = base + [F(1)]
+            return {'op': 'varied', 'ns': ns, 'base': [rj(v) for v in base], 'varied': varied}
         if op in ('rc_interval', 'bracket', 'residual'):
             n = rng.randint(1, 5)
             stoich = [rng.choice([-3, -2, -1, -1, 1, 1, 2, 3]) for _ in range(n)]
@@ -598,6 +641,48 @@ class C08(Property):
                 stoich[0] = -stoich[0]
             c0 = [float('%.6g' % 10 ** rng.uniform(-4, 0)) for _ in range(m)]
             cases.append({'kind': 'scalar', 'stoich': stoich, 'c0': c0, 'logK': round(rng.uniform(-6, 6), 4)})
+        # varied entry points: EqSystem.solve(init, varied) / roots — 2-3 varied substances in an arbitrary dict order
+        for j in range(max(8, n // 40)):
+            sel = (['water'] + rng.sample(ACIDBASE, rng.randint(1, 2))) if j % 2 else rng.sample(names, rng.choice([1, 2]))
+            subs = []
+            for nm in sel:
+                for s_ in list(POOL[nm][0]) + list(POOL[nm][1]):
+                    if s_ not in subs:
+                        subs.append(s_)
+            rng.shuffle(subs)
+            cand = [s_ for s_ in subs if s_ != 'H2O']
+            api = 'roots' if j % 4 == 3 else 'solve'
+            nv = 1 if api == 'roots' else min(len(cand), rng.choice([2, 2, 3]))
+            m = rng.choice([2, 3]) if nv < 3 else 2
+            vk = rng.sample(cand, nv)                 # the user's order
+            cases.append({'kind': 'grid', 'api': api, 'eqs': sel, 'logK': [round(POOL[nm][2] + rng.uniform(-1.5, 1.5), 6) for nm in sel],
+                          'subs': subs, 'init': [55.5 if s_ == 'H2O' else float('%.6g' % 10 ** rng.uniform(-5, -1)) for s_ in subs],
+                          'varied': [[k, sorted(float('%.6g' % 10 ** rng.uniform(-5, -1)) for _ in range(m))] for k in vk]})
+        # histories on ONE EqSystem object: constants changed in place between solves (Ksp / K scans)
+        for j in range(max(15, n // 30)):
+            if j % 3 != 2:
+                nm = rng.choice(list(SALTS))
+                solid, ions, lk = SALTS[nm]
+                subs = list(ions) + [solid]
+                init = [float('%.4g' % 10 ** rng.uniform(-3, 0)) for _ in ions] + [rng.choice([0.0, 0.0, 0.0, float('%.4g' % 10 ** rng.uniform(-3, 0))])]
+                lip = sum(v * math.log10(init[i]) for i, (k_, v) in enumerate(ions.items()))     # log10 ion product of the initial solution
+                steps = [2.0, 1.0, 0.3, -0.3, -1.0, -2.0, -0.3, 0.3, 2.0]      # Ksp scan down through the ion product and up again
+                if rng.random() < 0.3:
+                    steps = [-d for d in steps]
+                cases.append({'kind': 'history', 'system': {'kind': 'salt', 'salt': nm, 'flip': rng.random() < 0.5, 'subs': subs},
+                              'init': init, 'logKs': [[round(lip + d, 6)] for d in steps], 'variant': rng.choice(['default', 'log'])})
+            else:
+                sel = rng.sample(names, rng.choice([1, 2]))
+                subs = []
+                for nm in sel:
+                    for s_ in list(POOL[nm][0]) + list(POOL[nm][1]):
+                        if s_ not in subs:
+                            subs.append(s_)
+                base_lk = [POOL[nm][2] for nm in sel]
+                cases.append({'kind': 'history', 'system': {'kind': 'homog', 'eqs': sel, 'subs': subs},
+                              'init': [55.5 if s_ == 'H2O' else float('%.6g' % 10 ** rng.uniform(-5, 0)) for s_ in subs],
+                              'logKs': [[round(b + d + rng.uniform(-0.3, 0.3), 6) for b in base_lk] for d in (2.0, 0.0, -2.0, 1.0)],
+                              'variant': rng.choice(['default', 'log', 'loglin', 'solve'])})
         cases.append({'kind': 'rate', 'chain': 'root() default (NumSysLog)', 'pool': 'general', 'runs': rate_specs})
         cases.append({'kind': 'rate', 'chain': 'solve()/_solve default (NumSysLog, NumSysLin)', 'pool': 'general', 'runs': solve_specs})
         cases.append({'kind': 'rate', 'chain': 'root() default (NumSysLog)', 'pool': 'acidbase', 'runs': rate_ab})
@@ -665,7 +750,7 @@ class C08(Property):
     def model_case(self, c):
         if not c.get('op'):
             return None
-        drop = {'mode', 'balanced', 'at_equilibrium'}
+        drop = {'mode', 'balanced', 'at_equilibrium'}      # k_first stays: impl needs it, the driver ignores unknown fields
         if c['op'] not in ('ucb', 'sane'):
             drop.add('comps')
         return {k: v for k, v in c.items() if k not in drop}
@@ -709,9 +794,13 @@ class C08(Property):
                     es = self._build(c['phases'], c['rxns'])
                     return show_rat_list(es.dissolved(obj(c['c'])))
                 if op == 'fw':
-                    es = self._build(c['phases'], c['rxns'], params=[_fr(c['k'])] * len(c['rxns']))
+                    es = self._build(c['phases'], c['rxns'], params=[_fr(c.get('k_first', c['k']))] * len(c['rxns']))
                     fw = es._fw_cond_factory(c['ri'], rtol=_fr(c['rtol'])) if 'rtol' in c else es._fw_cond_factory(c['ri'])
+                    for r_ in es.rxns:                   # constants changed in place after the callback was made: the current ones count
+                        r_.param = _fr(c['k'])
                     return str(bool(fw(obj(c['x']), None)))
+                if op == 'varied':
+                    return self._varied_impl(c)
                 if op == 'bw':
                     es = self._build(c['phases'], c['rxns'])
                     return str(bool(es._bw_cond_factory(c['ri'], _fr(c['small']))(obj(c['x']), None)))
@@ -737,6 +826,19 @@ class C08(Property):
         except Exception as e:
             return exc_name(e)
         return '!unknown-op'
+
+    def _varied_call(self, c):
+        from chempy import ReactionSystem, Substance
+        rs = ReactionSystem([], [Substance('S%d' % i) for i in range(c['ns'])], checks=())
+        varied = OrderedDict(('S%d' % k, [float(_fr(v)) for v in vals]) for k, vals in c['varied'])
+        import numpy as np
+        return rs.per_substance_varied(np.array([float(_fr(v)) for v in c['base']]), varied)
+
+    def _varied_impl(self, c):
+        arr, keys = self._varied_call(c)
+        rows = arr.reshape(-1, arr.shape[-1]) if arr.size else arr.reshape(-1, c['ns'])
+        return '%s;%s;[%s]' % (show_int_list(int(k[1:]) for k in keys), show_int_list(arr.shape[:-1]),
+                               ','.join(show_rat_list(F(float(v)) for v in row) for row in rows))
 
     def same(self, c, io, mo):
         if c['op'] == 'ucb' and io.startswith('[') and mo.startswith('['):
@@ -826,15 +928,18 @@ class C08(Property):
                 return None
             rtol = _fr(c['rtol']) if 'rtol' in c else F(1, 10 ** 14)
             want = (q * (1 + rtol) < k) if coeff > 0 else (q > k * (1 + rtol))
-            es = self._build(phases, rxns, params=[k] * len(rxns))
+            es = self._build(phases, rxns, params=[_fr(c.get('k_first', c['k']))] * len(rxns))
             fw = es._fw_cond_factory(ri, rtol=rtol) if 'rtol' in c else es._fw_cond_factory(ri)
+            for r_ in es.rxns:            # history: constants changed in place after the callback was made — the CURRENT ones count
+                r_.param = k
             try:
                 got = bool(fw(obj(x), None))
             except ZeroDivisionError:
                 return None
             if got != want:
-                return ('fw_cond=%s but the ion quotient of the dissolved state (%s) compared with K=%s (solid coefficient %+d, '
-                        'rtol %s) says %s' % (got, q, k, coeff, rtol, want))
+                return ('fw_cond=%s but the ion quotient of the dissolved state (%s) compared with the current K=%s%s (solid coefficient %+d, '
+                        'rtol %s) says %s' % (got, q, k, (' (the callback was created while K was %s)' % _fr(c['k_first'])) if 'k_first' in c else '',
+                                              coeff, rtol, want))
         elif op == 'bw':
             phases, rxns, ri, x, small = c['phases'], c['rxns'], c['ri'], _frl(c['x']), _fr(c['small'])
             net = self._net(rxns[ri], len(phases))
@@ -856,6 +961,27 @@ class C08(Property):
                 return 'lower end %s of the bracket is not the largest feasible one' % lo
             if any(s < 0 for s in stoich) and all(a + s * (up + F(1, 10 ** 6)) >= 0 for a, s in zip(c0, stoich)):
                 return 'upper end %s of the bracket is not the largest feasible one' % up
+        elif op == 'varied':
+            ns, base = c['ns'], _frl(c['base'])
+            if len(base) != ns or any(k >= ns for k, _ in c['varied']):
+                return None
+            from itertools import product
+            try:
+                arr, keys = self._varied_call(c)
+            except Exception as e:
+                return 'per_substance_varied raised %s for a well-formed varied dict (order of the keys: %s)' % (exc_name(e), [k for k, _ in c['varied']])
+            levels = {k: _frl(vals) for k, vals in c['varied']}
+            kidx = [int(k[1:]) for k in keys]
+            if kidx != sorted(levels) or tuple(arr.shape) != tuple(len(levels[k]) for k in kidx) + (ns,):
+                return 'per_substance_varied: keys %s / shape %s do not follow the substance order of the varied substances' % (list(keys), arr.shape)
+            for index in product(*[range(n) for n in arr.shape[:-1]]):
+                want = list(base)
+                for a, k in enumerate(kidx):        # what varied_keys documents: axis a belongs to substance keys[a]
+                    want[k] = levels[k][index[a]]
+                got = [F(float(v)) for v in arr[index]]
+                if got != want:
+                    return ('per_substance_varied: grid point %s is %s but varied_keys=%s documents the initial state %s' % (
+                        list(index), [str(v) for v in got], list(keys), [str(v) for v in want]))
         elif op == 'residual':
             stoich, c0, rc, K = c['stoich'], _frl(c['c0']), _fr(c['rc']), _fr(c['K'])
             cs = [a + s * rc for a, s in zip(c0, stoich)]
@@ -869,10 +995,12 @@ class C08(Property):
                 return 'equilibrium_residual=%s although Q=%s, K=%s' % (got, q, K)
         return None
 
-    def _genuine(self, es, c0, x, homogeneous=True, solid=None, ions=None, ksp=None):
-        """the defining equations on a returned state; None or a description"""
+    def _genuine(self, es, c0, x, homogeneous=True, solid=None, ions=None, ksp=None, tol=None):
+        """the defining equations on a returned state, to the tolerance the solver was run with; None or a description"""
         import numpy as np
+        tol = _solver_tol('default') if tol is None else tol
         x = np.asarray(x, dtype=float)
+        c0 = np.asarray(c0, dtype=float)
         if not np.all(np.isfinite(x)):
             return 'non-finite', 'returned concentrations are not finite: %r' % x.tolist()
         if np.any(x < -NEG_ATOL):
@@ -880,27 +1008,44 @@ class C08(Property):
         A, ck = es.composition_balance_vectors()
         A = np.array(A, dtype=float)
         t0, t1 = A @ c0, A @ x
-        scale = np.abs(A) @ np.abs(c0)
+        big = float(max(np.max(np.abs(x)), np.max(np.abs(c0))))
+        scale = np.abs(A) @ np.maximum(np.abs(x), np.abs(c0))
         for k, a, b, s in zip(ck, t0, t1, scale):
-            if abs(a - b) > TOT_RTOL * s + TOT_ATOL_REL * float(np.max(np.abs(c0))):
-                return 'totals', 'total of component %s changed from %r to %r' % (k, a, b)
+            if abs(a - b) > TOT_FACTOR * tol * s + ROUND_ATOL * big:
+                return 'totals', 'total of component %s changed from %r to %r (allowed: %g = %g*tol*scale, tol=%g)' % (
+                    k, a, b, TOT_FACTOR * tol * s, TOT_FACTOR, tol)
+
+        def lnq(row):
+            """(ln prod x^nu, conditioning scale sum |nu|(1+|ln x|)); None if a needed concentration is zero"""
+            idx = [j for j, n in enumerate(row) if n != 0]
+            if any(x[j] <= 0 for j in idx):
+                return None, None
+            return (sum(float(row[j]) * math.log(x[j]) for j in idx),
+                    sum(abs(float(row[j])) * (1 + abs(math.log(x[j]))) for j in idx))
         if homogeneous:
-            for r, q in zip(es.rxns, es.equilibrium_quotients(x)):
-                k = r.param
-                if not (abs(q / k - 1) <= Q_RTOL):
-                    return 'Q!=K', 'Q/K = %r for %s' % (q / k, r)
+            for r, row in zip(es.rxns, es.stoichs()):
+                v, cond = lnq(row)
+                if v is None:
+                    return 'Q!=K', 'a species of %s has concentration 0: Q is 0 or undefined' % r
+                if not (abs(v - math.log(r.param)) <= Q_FACTOR * tol * cond + 1e-14 * cond):
+                    return 'Q!=K', 'Q/K = %r for %s (allowed |ln Q/K|: %g = %g*tol*conditioning, tol=%g)' % (
+                        math.exp(v - math.log(r.param)), r, Q_FACTOR * tol * cond, Q_FACTOR, tol)
         else:
             names = list(es.substances)
-            ip = 1.0
-            for nm, v in ions.items():
-                ip *= x[names.index(nm)] ** v
+            row = [ions.get(nm, 0) for nm in names]
             s = x[names.index(solid)]
             absent = s <= max(4 * LOG_SMALL, 1e-12 * float(np.max(np.abs(c0))))
-            if absent:
-                if ip > ksp * (1 + Q_RTOL):
-                    return 'ksp', 'solid absent (%r) but the ion product is %r * Ksp' % (s, ip / ksp)
-            elif abs(ip / ksp - 1) > Q_RTOL:
-                return 'ksp', 'solid present (%r) but the ion product is %r * Ksp' % (s, ip / ksp)
+            v, cond = lnq(row)
+            if v is None:
+                if not absent:
+                    return 'ksp', 'solid present (%r) but an ion has concentration 0' % s
+            else:
+                d = v - math.log(ksp)
+                allowed = Q_FACTOR * tol * cond + 1e-14 * cond
+                if absent and d > allowed:
+                    return 'ksp', 'solid absent (%r) but the ion product is %r * Ksp' % (s, math.exp(d))
+                if not absent and abs(d) > allowed:
+                    return 'ksp', 'solid present (%r) but the ion product is %r * Ksp' % (s, math.exp(d))
         return None
 
     def _oracle_solver(self, c):
@@ -914,9 +1059,9 @@ class C08(Property):
             c0 = es.as_per_substance_array(dict(zip(c['subs'], c['init'])))
             if kind == 'salt':
                 solid, ions, _ = SALTS[c['salt']]
-                bad = self._genuine(es, c0, r['x'], homogeneous=False, solid=solid, ions=ions, ksp=10 ** c['logKsp'])
+                bad = self._genuine(es, c0, r['x'], homogeneous=False, solid=solid, ions=ions, ksp=10 ** c['logKsp'], tol=_solver_tol(c['variant']))
             else:
-                bad = self._genuine(es, c0, r['x'])
+                bad = self._genuine(es, c0, r['x'], tol=_solver_tol(c['variant']))
             if bad:
                 return '%s reports success and a sane result but %s (residual reported by the solver: %r)' % (
                     'solve() [default chain (NumSysLog, NumSysLin)]' if c['variant'] == 'solve' else 'root(%s)' % c['variant'], bad[1], r.get('maxfun'))
@@ -963,6 +1108,81 @@ class C08(Property):
             return None
         if kind == 'stages':
             return self._oracle_stages(c)
+        if kind == 'grid':
+            return self._oracle_grid(c)
+        if kind == 'history':
+            return self._oracle_history(c)
+        return None
+
+    def _oracle_grid(self, c):
+        """EqSystem.solve(init, varied) / roots: every grid point that reports success and a sane result must be a genuine equilibrium
+        of the initial state that `varied_keys` (resp. the varied_data entry) documents for that point"""
+        import numpy as np
+        from itertools import product
+        es = self._build_pool({'kind': 'homog', 'eqs': c['eqs'], 'logK': c['logK'], 'subs': c['subs']})
+        base = dict(zip(c['subs'], c['init']))
+        levels = OrderedDict((k, list(v)) for k, v in c['varied'])
+        if c['api'] == 'roots':
+            (k, data), = levels.items()
+            xs, infos, sanity = es.roots(base, np.array(data), k)
+            for i, val in enumerate(data):
+                if not (_success(infos[i]) and sanity[i]):
+                    continue
+                c0 = es.as_per_substance_array(dict(base, **{k: val}))
+                bad = self._genuine(es, c0, xs[i])
+                if bad:
+                    return 'roots(varied=%s): point %d (%s=%r) reports success and a sane result but %s' % (k, i, k, val, bad[1])
+            return None
+        res = es.solve(base, levels)
+        keys = list(res.varied_keys)
+        if set(keys) != set(levels) or res.conc.shape != tuple(len(levels[k]) for k in keys) + (es.ns,):
+            return 'solve(varied): varied_keys %s / shape %s inconsistent with the varied levels' % (keys, res.conc.shape)
+        for index in product(*[range(len(levels[k])) for k in keys]):
+            if not (bool(res.success[index]) and bool(res.sane[index])):
+                continue
+            doc = dict(base)
+            for a, k in enumerate(keys):
+                doc[k] = levels[k][index[a]]
+            bad = self._genuine(es, es.as_per_substance_array(doc), res.conc[index])
+            if bad:
+                return ('solve(varied given in the order %s): grid point %s (documented by varied_keys=%s as %s) reports success and a sane '
+                        'result but %s' % (list(levels), list(index), keys, {k: doc[k] for k in keys}, bad[1]))
+        return None
+
+    def _oracle_history(self, c):
+        """one EqSystem object, constants changed in place between solves: every success & sane result is judged against the CURRENT constants"""
+        import numpy as np
+        sy = c['system']
+        first = dict(sy, logKsp=c['logKs'][0][0]) if sy['kind'] == 'salt' else dict(sy, logK=c['logKs'][0])
+        es = self._build_pool(first)
+        init = dict(zip(sy['subs'], c['init']))
+        c0 = es.as_per_substance_array(init)
+        for step, lks in enumerate(c['logKs']):
+            if sy['kind'] == 'salt':
+                ksp = 10 ** lks[0]
+                es.rxns[0].param = 1 / ksp if sy['flip'] else ksp
+            else:
+                for r_, lk in zip(es.rxns, lks):
+                    r_.param = 10 ** lk
+            try:
+                if c['variant'] == 'solve':
+                    r_ = es.solve(init)
+                    x, succ, sane = np.asarray(r_.conc, dtype=float).reshape(-1), bool(r_.success), bool(r_.sane)
+                else:
+                    x, sol, sane = es.root(init, **_variant_kwargs(c['variant']))
+                    succ = _success(sol)
+            except Exception:
+                continue                       # e.g. conditional_maxiter reached: no success claimed
+            if not (succ and sane):
+                continue
+            if sy['kind'] == 'salt':
+                solid, ions, _ = SALTS[sy['salt']]
+                bad = self._genuine(es, c0, x, homogeneous=False, solid=solid, ions=ions, ksp=10 ** lks[0])
+            else:
+                bad = self._genuine(es, c0, x)
+            if bad:
+                return ('step %d of a history on one EqSystem object (constants set in place to log10 K = %s after %s): %s reports success and a '
+                        'sane result but %s' % (step, lks, c['logKs'][:step], c['variant'], bad[1]))
         return None
 
     def _rate(self, c):
@@ -1063,6 +1283,10 @@ class C08(Property):
             return 'solve:rate:%s:%s:n=%d:failures=%d' % (c.get('pool'), 'solve' if 'solve' in c.get('chain', '') else 'root', n, n - ok)
         if k == 'stages':
             return 'stages:%s:%s' % (c['neqsys_type'], '-'.join(c['chain']))
+        if k == 'grid':
+            return 'grid:%s:%d-varied' % (c['api'], len(c['varied']))
+        if k == 'history':
+            return 'history:%s:%s' % (c['system']['kind'], c['variant'])
         return 'solve:' + str(k)
 
     def nontrivial(self, c):
